@@ -113,7 +113,10 @@ def run(replay=None):
     obs = os.path.join(ck.wd, "obs.jsonl")
     rc, out = vlib.run_hx(hx, ["c20", "-seed", str(ck.seed), "-tier", ck.tier, "-out", obs], timeout=3000)
     if rc != 0:
-        ck.obligation_broken("harness run c20 (exit %d)" % rc, out)
+        # the driver only requests regions, writes stubs into them and calls through them: a fault means a region was not usable
+        done = [r.get("kind") for r in (vlib.read_jsonl(obs) if os.path.exists(obs) else [])]
+        ck.impl_violation("crash", "the process dies (exit %d) while regions handed out by the allocator are written and executed (after %d records, last: %s): %s" % (
+            rc, len(done), done[-1] if done else "none", out[-300:].replace("\n", " ")), {"tail": out[-1200:], "records": len(done)})
         return ck.finish()
     rows = vlib.read_jsonl(obs)
     seqs = [r for r in rows if r["kind"] == "seq"]
